@@ -343,6 +343,10 @@ aes_keyexp_128_enc_sse:
 	movdqa	[EXP_ENC_KEYS + 16*10], xmm1
 
 aes_keyexp_128_enc_sse_return:
+
+%ifdef SAFE_DATA
+        clear_scratch_xmms_sse_asm
+%endif
 	ret
 
 %ifdef SAFE_PARAM
@@ -416,6 +420,10 @@ aes_keyexp_128_enc_avx512:
 	vmovdqa	[EXP_ENC_KEYS + 16*10], xmm1
 
 aes_keyexp_128_enc_avx_return:
+
+%ifdef SAFE_DATA
+        clear_scratch_xmms_avx_asm
+%endif
 	ret
 
 %ifdef SAFE_PARAM
